@@ -125,7 +125,8 @@ def windows_path(r) -> tuple[bytes, str]:
         x = r.random()
         segs.append(b"." if x < 0.08 else b".." if x < 0.2 else _wseg(r))
     fname = _wseg(r) + r.choice([b".txt", b".exe", b".dll", b".pdf", b"", b".DLL", b".xlsx"])
-    host = r.choice([domain(r), ipv4(r), _wseg(r), b"0x7f.0.0.1", b"system07"])
+    host = r.choice([domain(r), ipv4(r), _wseg(r), b"0x7f.0.0.1", b"system07", domain(r) + b".", b"0300.0250.012.024", b"127.1", b"3232238100",
+                     b"010.1.1.1"])
     if shape == 0:
         pre, t = bytes([r.choice(b"CDEcdz")]) + b":\\", "windows.path"
     elif shape == 1:
@@ -157,7 +158,7 @@ def windows_path(r) -> tuple[bytes, str]:
 
 
 def exe_name(r) -> bytes:
-    return bytes(r.choice(LOWER + DIGITS + b"_") for _ in range(r.randint(1, 10))) + r.choice([b".exe", b".dll", b".EXE", b".Dll"])
+    return bytes(r.choice(LOWER + DIGITS + b"_") for _ in range(r.randint(1, 10))) + r.choice([b".exe", b".dll", b".EXE", b".Dll", b".Exe", b".eXe", b".dLL", b".DLL"])
 
 
 def createobject(r) -> bytes:
@@ -192,6 +193,18 @@ def esc_some(r, s: bytes, p=0.3, extra=b"") -> bytes:
     return bytes(out)
 
 
+_HOST_POOL: list[bytes] = []
+
+
+def recase(r, s: bytes) -> bytes:
+    x = r.random()
+    if x < 0.3:
+        return s.upper()
+    if x < 0.6:
+        return s.lower()
+    return bytes(c ^ 0x20 if (65 <= c <= 90 or 97 <= c <= 122) and r.random() < 0.4 else c for c in s)
+
+
 def url(r, escapes=True) -> dict:
     """RFC 3986 URL within what the documented URL pattern accepts. Returns the pieces."""
     scheme = r.choice(SCHEMES)
@@ -217,11 +230,13 @@ def url(r, escapes=True) -> dict:
         userinfo = user + b"@" + pw
     # host
     hk = r.choice(["domain"] * 5 + ["ip", "ip", "aton", "esc-domain", "esc-reserved", "ipv6", "ipv6-esc", "unregistered",
-                                    "mixedcase"])
+                                    "mixedcase", "trailing-dot"])
     if hk == "domain":
         host = domain(r)
     elif hk == "mixedcase":
         host = domain(r, case_mix=True)
+    elif hk == "trailing-dot":
+        host = r.choice([domain(r), ipv4(r)]) + b"."
     elif hk == "ip":
         host = ipv4(r)
     elif hk == "aton":
@@ -232,11 +247,20 @@ def url(r, escapes=True) -> dict:
     elif hk == "esc-reserved":
         host = r.choice([b"foo%40bar.com", b"1.2.3.4%20", b"ex%2Fample.com", b"a%3Ab.example.org", b"%20example.com"])
     elif hk == "ipv6":
-        host = r.choice([b"[::1]", b"[2001:db8::1]", b"[fe80::1:2:3:4]", b"[0:0:0:0:0:0:0:1]", b"[::ffff:1.2.3.4]".replace(b".", b":")])
+        host = r.choice([b"[::1]", b"[2001:db8::1]", b"[fe80::1:2:3:4]", b"[0:0:0:0:0:0:0:1]", b"[2001:db8::c0de]", b"[2001:DB8::C0DE]",
+                         b"[FE80::A:B:C:D]", b"[::ffff:1.2.3.4]".replace(b".", b":")])
     elif hk == "ipv6-esc":
         host = r.choice([b"[%3A%3A1]", b"%5B::1%5D", b"%5b::1]", b"[2001:db8:%3A1]", b"[::%31]"])
     else:
         host = label(r) + b"." + r.choice([b"notatld", b"zzzzq", b"internalx"])
+    # state carried between calls shows only if the same host comes back, spelled in another letter case
+    if _HOST_POOL and r.random() < 0.2:
+        host = recase(r, r.choice(_HOST_POOL))
+        hk = "pooled"
+    elif hk in ("domain", "mixedcase", "ipv6", "ip"):
+        _HOST_POOL.append(host)
+        if len(_HOST_POOL) > 12:
+            _HOST_POOL.pop(0)
     port = r.choice([None] * 5 + [b"80", b"8080", b"", b"65535", b"0", b"443"])
     # path
     pk = r.choice(["none", "slash", "plain", "plain", "dots", "dots", "esc", "many-dotdot", "empty-seg"])
